@@ -17,6 +17,7 @@ Oracle clauses (violation key = C14:<clause>:<site or field>):
   repack:<kind>@<offset>                 pack(parse(b)) != b; <kind> is the innermost header whose bytes differ
   length:<where>.<field>, checksum:<where>   emitted length / checksum field != reference
   checksum-fn:<class>                    packet_utils.checksum() != RFC 1071 on a bare buffer
+  corpus-repack:<header>                 a valid frame assembled without the library: pack(parse(frame)) != frame
   history:<Class>.<attr> | history:repack | ...   parsing a corpus frame B after a frame A differs from parsing B in a fresh process
   edit-lost:<kind>.<attr>                bytes -> parse -> assign the attribute -> pack -> parse: the new value is gone
   edit-corrupts:<kind>.<attr>            ... another attribute (the one named) differs from the packet built from scratch
@@ -408,6 +409,61 @@ def edit_plens (st, quick):
 
 
 # ---------------------------------------------------------------------------------------------
+# corpus frames (assembled WITHOUT the library):  parse -> pack gives the frame back
+# ---------------------------------------------------------------------------------------------
+
+def check_corpus_frame (P, name, frame):
+  """pack(parse(frame)) == frame for every corpus frame (frames of a family listed in
+  pktcorpus.CORPUS_NOT_CANONICAL only have to re-encode to a fixpoint: parsing and packing the re-encoded
+  bytes once more changes nothing).  Returns (Case, text)."""
+  c = Case()
+  try:
+    c.calls += 2
+    p = P.pkt.ethernet(raw=frame)
+    b = p.pack()
+  except Exception as e:
+    _raised(c, e, "parse + pack of corpus frame %s" % name); return c
+  c.frame = b
+  loose = K.CORPUS_NOT_CANONICAL.get(name)
+  ref = frame
+  if loose:
+    try:
+      c.calls += 2
+      ref = b
+      b = P.pkt.ethernet(raw=ref).pack()
+    except Exception as e:
+      _raised(c, e, "parse + pack of the re-encoded corpus frame %s" % name); return c
+  if b != ref:
+    off = first_diff(b, ref)
+    loc = R.verify_frame(ref).locate(min(off, len(ref) - 1))
+    where = loc[0].rsplit(">", 1)[-1] if loc else "payload"
+    c.bad("corpus-repack:%s" % where,
+          "corpus frame %s (%s): %s differs from it (%d vs %d bytes, first difference at offset %d, inside the %s header): %s -> %s"
+          % (name, K.CORPUS_PATHS[name], "a second parse+pack of the re-encoding" if loose else "pack(parse(frame))",
+             len(b), len(ref), off, where, ref[max(0, off - 4):off + 8].hex(), b[max(0, off - 4):off + 8].hex()))
+  return c
+
+
+def run_corpus (rep, P):
+  for name, frame in K.corpus().items():
+    try:
+      c = check_corpus_frame(P, name, frame)
+    except Exception:
+      rep.error("corpus frame %s: %s" % (name, traceback.format_exc(limit=4))); continue
+    rep.evaluations += 1
+    rep.transitions += c.calls
+    rep.outcome(("corpus", name, [k for k, _ in c.viols], digest(c.frame) if c.frame is not None else None))
+    for k, what in c.viols:
+      rep.violation("%s:%s" % (PID, k), what, dict(kind="corpus", frame=name))
+
+
+def _corpus_worker (_):
+  rep = Report(PID, "exploration")
+  run_corpus(rep, K.pox_namespace())
+  return rep
+
+
+# ---------------------------------------------------------------------------------------------
 # history independence of the parser:  parse A, then parse B  ==  parse B in a fresh process
 # ---------------------------------------------------------------------------------------------
 _ISO = {}      # corpus frame name -> summary of parsing it first thing in a fresh process (set before the fork)
@@ -718,8 +774,14 @@ def run (cfg):
   self_check(rep)
   if not cfg.only or cfg.only == "history":
     run_history(rep, cfg)              # first: this process must not have parsed anything yet
+  if not cfg.only or cfg.only == "corpus":
+    pool = fresh_pool(1)               # in a child: this process itself must stay pristine for nothing, but cheap and uniform
+    try:
+      for r in pool.map(_corpus_worker, [0], 1): rep.merge(r)
+    finally:
+      pool.terminate()
   names = list(K.ORDER)
-  if cfg.only == "history": names = []
+  if cfg.only in ("history", "corpus"): names = []
   if cfg.only:
     names = [n for n in names if cfg.only in n]
   items = []
@@ -756,7 +818,8 @@ def run (cfg):
               "checksum fields with refs/rfc1071 over raw offsets.  Edit-after-parse phase: per stack, the base vector x payload %s is "
               "packed and parsed, then every single deviation is applied to the PARSED chain by attribute assignment (one field of one "
               "header, every header in turn), packed, parsed again and compared field by field with the same packet assembled from "
-              "scratch, and its lengths/checksums verified.  History phase: for every ordered pair (A, B) of the %d corpus frames (A == B included), "
+              "scratch, and its lengths/checksums verified.  Corpus phase: pack(parse(f)) == f for every corpus frame f (families in pktcorpus.CORPUS_NOT_CANONICAL: the "
+              "re-encoding is a fixpoint).  History phase: for every ordered pair (A, B) of the %d corpus frames (A == B included), "
               "in a fresh process per A: parse A, parse B; every attribute of B's parsed chain and its re-encoding must equal B parsed "
               "first thing in a fresh process. distinct = distinct (violated clauses, emitted frame, parsed chain)"
               % (len(names), "" if quick else "; thorough: 0..1500 on every stack whose range reaches 1500", nd,
@@ -787,6 +850,9 @@ def replay (cfg, data):
   if data.get("kind") == "csum":
     v = check_csum_fn(P, data["n"], data["pat"], data["skip"])
     return bool(v), "\n".join("%s: %s" % kv for kv in v) or "checksum agrees with RFC 1071"
+  if data.get("kind") == "corpus":
+    c = check_corpus_frame(P, data["frame"], K.corpus()[data["frame"]])
+    return bool(c.viols), "\n".join("VIOLATED %s:%s: %s" % (PID, k, w) for k, w in c.viols) or "corpus frame re-encodes to itself"
   if data.get("kind") == "history":
     pool = fresh_pool(1)
     try:
